@@ -441,7 +441,7 @@ func parentExec(a []string) string {
 // ---------------------------------------------------------------- generator
 
 func gen(r *lib.Rand, tier string, emit func(string)) {
-	nCorpus, nBuilt, nRandom := 250, 500, 60
+	nCorpus, nBuilt, nRandom := 150, 300, 40
 	if tier == "thorough" {
 		nCorpus, nBuilt, nRandom = -1, 6000, 600
 	}
